@@ -319,7 +319,7 @@ func bigScopePrograms(r *vh.Rand, n int) []string {
 
 // runRename writes cases.in / cases.go.out for the rename model: the generated programs of this run (regenerated from
 // the same seed stream) plus the big-scope family.
-func runRename(res *vh.Result, seed uint64, n int, known bool, outDir string) {
+func runRename(res *vh.Result, seed uint64, n int, known bool, outDir string, kind string) {
 	fin, _ := os.Create(filepath.Join(outDir, "cases.in"))
 	fout, _ := os.Create(filepath.Join(outDir, "cases.go.out"))
 	defer fin.Close()
@@ -332,6 +332,12 @@ func runRename(res *vh.Result, seed uint64, n int, known bool, outDir string) {
 	var kh []string
 	for _, k := range kws {
 		kh = append(kh, hexd([]byte(k)))
+	}
+	if kind == "print" {
+		fin.Close()
+		fout.Close()
+		runPrintCases(seed, 6000, outDir, res.Extra)
+		return
 	}
 	fmt.Fprintf(fin, "rename_keywords\t%s\n", strings.Join(kh, ","))
 	fmt.Fprintf(fout, "ok %d\n", len(kws))
@@ -381,6 +387,11 @@ func runRename(res *vh.Result, seed uint64, n int, known bool, outDir string) {
 	measure = false
 	for _, src := range withFamily(master.Fork(), 40) {
 		emit(src, false, master.Intn(4) == 0)
+	}
+	fin.Close()
+	fout.Close()
+	if kind != "rename" {
+		runPrintCases(seed, 6000, outDir, res.Extra)
 	}
 	res.Extra["rename_programs"] = st.programs
 	res.Extra["rename_scopes"] = st.scopes
